@@ -3,6 +3,7 @@ package main
 import (
 	"fmt"
 	"go/ast"
+	"go/token"
 	"go/types"
 	"regexp"
 	"strings"
@@ -30,11 +31,25 @@ var c12ScalarTypeNames = map[string]bool{"U8": true, "U16": true, "U32": true, "
 var c12ScalarTypeRe = regexp.MustCompile(`(_ptr|\._u8|\._u16|\._u32|\._u64|\._i32|\._i64|ExtractByName\("[ldc]"\)\.Type\(\)|_len\.Type\(\)|_cap\.Type\(\))$`)
 
 // mode "leak" reports the first clause (C12), mode "borrow" the second (C11).
-func c12HelperLocals(c *Ctx, p *Prog, wp *packages.Package, mode string) {
+func c12HelperLocals(c *Ctx, p *Prog, wp *packages.Package, mode string, more ...*packages.Package) {
+	const rule = "helper-local-ownership"
+	nFuncs, nLocals := 0, 0
+	for _, pk := range append([]*packages.Package{wp}, more...) {
+		if pk == nil {
+			continue
+		}
+		f, l := c12HelperLocalsIn(c, p, pk, mode)
+		nFuncs += f
+		nLocals += l
+	}
+	c.Min(rule, "generated helper functions with locals", nFuncs, 6)
+	c.Min(rule, "possibly reference-counted helper locals", nLocals, 8)
+}
+
+func c12HelperLocalsIn(c *Ctx, p *Prog, wp *packages.Package, mode string) (nFuncs, nLocals int) {
 	const rule = "helper-local-ownership"
 	info := wp.TypesInfo
 	registerPredicates(wp)
-	nFuncs, nLocals := 0, 0
 	for _, file := range wp.Syntax {
 		for _, d := range file.Decls {
 			fd, ok := d.(*ast.FuncDecl)
@@ -48,6 +63,23 @@ func c12HelperLocals(c *Ctx, p *Prog, wp *packages.Package, mode string) {
 			}
 			var locals []loc
 			created := map[types.Object]string{}
+			scopeOf := map[types.Object]*ast.BlockStmt{} // innermost block the local is created in (a loop body: a fresh local per round)
+			var blocks []*ast.BlockStmt
+			ast.Inspect(fd.Body, func(n ast.Node) bool {
+				if b, ok := n.(*ast.BlockStmt); ok {
+					blocks = append(blocks, b)
+				}
+				return true
+			})
+			innermost := func(pos token.Pos) *ast.BlockStmt {
+				var best *ast.BlockStmt
+				for _, b := range blocks {
+					if b.Pos() <= pos && pos < b.End() && (best == nil || b.Pos() >= best.Pos()) {
+						best = b
+					}
+				}
+				return best
+			}
 			defText := map[types.Object]string{} // emitseq prints a receiver that is a local as its definition
 			ast.Inspect(fd.Body, func(n ast.Node) bool {
 				as, ok := n.(*ast.AssignStmt)
@@ -59,9 +91,10 @@ func c12HelperLocals(c *Ctx, p *Prog, wp *packages.Package, mode string) {
 					return true
 				}
 				fn := types.ExprString(call.Fun)
-				if fn == "NewLocal" && len(call.Args) == 2 {
+				if (fn == "NewLocal" || strings.HasSuffix(fn, ".NewLocal")) && len(call.Args) == 2 {
 					if o := identObj(info, as.Lhs[0]); o != nil {
 						created[o] = strings.ReplaceAll(types.ExprString(call.Args[1]), " ", "")
+						scopeOf[o] = innermost(as.Pos())
 						defText[o] = strings.ReplaceAll(types.ExprString(call), " ", "")
 					}
 				}
@@ -76,6 +109,7 @@ func c12HelperLocals(c *Ctx, p *Prog, wp *packages.Package, mode string) {
 				continue
 			}
 			nFuncs++
+			seqNo := map[string]int{}
 			seq := emitSequence(info, fd)
 			var ev []emEvent
 			for _, e := range seq.Events {
@@ -96,6 +130,17 @@ func c12HelperLocals(c *Ctx, p *Prog, wp *packages.Package, mode string) {
 				name := l.obj.Name()
 				isL := func(recv string) bool { return recv == name || (defText[l.obj] != "" && recv == defText[l.obj]) }
 				ownsRetained, borrows, released := false, false, false
+				// events of the block the local lives in (same-named locals of other loops are other locals)
+				evAll := ev
+				if sc := scopeOf[l.obj]; sc != nil && sc != fd.Body {
+					var in []emEvent
+					for _, e := range evAll {
+						if sc.Pos() <= e.Pos && e.Pos < sc.End() {
+							in = append(in, e)
+						}
+					}
+					ev = in
+				}
 				for i, e := range ev {
 					if e.Kind != "deleg" || !isL(e.Recv) {
 						continue
@@ -103,9 +148,17 @@ func c12HelperLocals(c *Ctx, p *Prog, wp *packages.Package, mode string) {
 					switch e.Name {
 					case "EmitPop", "EmitPopNoRelease":
 						// what was pushed just before?
+						// (the nearest earlier event that leaves a value on the stack: resets of globals, releases and
+						// pops in between do not)
 						src := "owned"
-						if i > 0 && ev[i-1].Kind == "deleg" && ev[i-1].Name == "EmitPushNoRetain" {
-							src = "borrowed"
+						for k := i - 1; k >= 0; k-- {
+							if ev[k].Kind == "deleg" && (ev[k].Name == "EmitInit" || ev[k].Name == "EmitRelease" || strings.HasPrefix(ev[k].Name, "EmitPop") || strings.HasPrefix(ev[k].Name, "EmitStore")) {
+								continue
+							}
+							if ev[k].Kind == "deleg" && strings.HasSuffix(ev[k].Name, "NoRetain") {
+								src = "borrowed"
+							}
+							break
 						}
 						if src == "owned" {
 							ownsRetained = true
@@ -123,20 +176,28 @@ func c12HelperLocals(c *Ctx, p *Prog, wp *packages.Package, mode string) {
 					}
 				}
 				construct := fmt.Sprintf("%s: local %s (%s)", declName(fd), name, t)
+				if sc := scopeOf[l.obj]; sc != nil && sc != fd.Body {
+					seqNo[declName(fd)+name+t]++
+					if k := seqNo[declName(fd)+name+t]; k > 1 {
+						construct += fmt.Sprintf(" #%d", k)
+					}
+				}
 				at := p.Pos(l.obj.Pos())
 				switch {
 				case mode == "leak" && ownsRetained && !released && last != "EmitPushNoRetain":
 					c.Fail(rule, construct, at, "the local takes ownership of a retained value and is neither released nor moved out as the result ("+lastOr(last, "no final push")+"): the generated helper has no epilogue, so every call leaks one reference to that value")
 				case mode == "borrow" && borrows && !ownsRetained && last == "EmitPushNoRetain":
 					c.Fail(rule, construct, at, "the local only borrows its value (pushed without retain, popped without release) and is returned without retain: the caller owns what a helper returns and releases it, so the value's owner loses a reference it still uses (premature free)")
+				case mode == "borrow" && borrows && !ownsRetained && released:
+					c.Fail(rule, construct, at, "the local only borrows its value (loaded or pushed without retain) and is released all the same: the helper drops a reference it never took, so every call takes one reference away from an object that other owners still use — it is freed while referenced (use after free, later a double free)")
 				default:
 					c.OK(rule, construct, at, "owned value released or moved out; borrowed value not returned")
 				}
+				ev = evAll
 			}
 		}
 	}
-	c.Min(rule, "generated helper functions with locals", nFuncs, 6)
-	c.Min(rule, "possibly reference-counted helper locals", nLocals, 8)
+	return nFuncs, nLocals
 }
 
 func lastOr(s, d string) string {
